@@ -5,10 +5,11 @@ import (
 	"go/ast"
 	"go/parser"
 	"go/token"
-	"strconv"
 	"os"
 	"os/exec"
 	"path/filepath"
+	"sort"
+	"strconv"
 	"strings"
 
 	"github.com/uhn/ggql/pkg/ggql"
@@ -95,13 +96,23 @@ type c15Res struct {
 }
 
 func c15RoundTrip(printed string, baseIntro string, reprint func(*ggql.Root) string) c15Res {
+	return c15RoundTripD(printed, baseIntro, "", false, reprint)
+}
+
+// c15RoundTripD also compares the directive uses (introspection does not show them)
+func c15RoundTripD(printed string, baseIntro, baseUses string, withUses bool, reprint func(*ggql.Root) string) c15Res {
 	root2 := newLoadRoot()
 	if err := safeParse(root2, printed); err != nil {
 		return c15Res{err: err.Error()}
 	}
 	res := safeResolve(root2, introQuery, "", nil)
 	intro2 := canon(map[string]interface{}{"data": res["data"]})
-	return c15Res{accepted: true, sameSchema: intro2 == baseIntro, fixedPoint: reprint(root2) == printed}
+	same := intro2 == baseIntro
+	if withUses && same {
+		uses2, _, _ := dirUseDump(root2)
+		same = uses2 == baseUses
+	}
+	return c15Res{accepted: true, sameSchema: same, fixedPoint: reprint(root2) == printed}
 }
 
 func hasHardDesc(set *sSet) (backslash, quote, triple bool) {
@@ -246,13 +257,16 @@ func c15Case(o *Out, r *Rng, toolBin, toolDir string) {
 	}
 	res := safeResolve(root, introQuery, "", nil)
 	baseIntro := canon(map[string]interface{}{"data": res["data"]})
-	whole := c15RoundTrip(root.SDL(false, true), baseIntro, func(r2 *ggql.Root) string { return r2.SDL(false, true) })
+	baseUses, nUses, nNulls := dirUseDump(root)
+	o.CountN("directive-uses-compared", nUses)
+	o.CountN("directive-use-null-arguments", nNulls)
+	whole := c15RoundTripD(root.SDL(false, true), baseIntro, baseUses, true, func(r2 *ggql.Root) string { return r2.SDL(false, true) })
 	// the tool reads the printed form (the hard descriptions exist only in the root, not in the generated text)
 	var tool c15Res
 	if rewritten, err := toolRewrite(toolBin, toolDir, root.SDL(false, true)); err != nil {
 		tool = c15Res{err: err.Error()}
 	} else {
-		tool = c15RoundTrip(rewritten, baseIntro, func(*ggql.Root) string { return rewritten })
+		tool = c15RoundTripD(rewritten, baseIntro, baseUses, true, func(*ggql.Root) string { return rewritten })
 		o.Count("real-ggqlgen-runs")
 	}
 	printed := root.SDL(false, true)
@@ -261,7 +275,7 @@ func c15Case(o *Out, r *Rng, toolBin, toolDir string) {
 	if embedded, err := toolEmbed(toolBin, toolDir, printed); err != nil {
 		embed = c15Res{err: err.Error()}
 	} else {
-		embed = c15RoundTrip(embedded, baseIntro, func(*ggql.Root) string { return embedded })
+		embed = c15RoundTripD(embedded, baseIntro, baseUses, true, func(*ggql.Root) string { return embedded })
 	}
 	if tick {
 		o.Count("printed-has-backtick")
@@ -292,7 +306,8 @@ func c15Case(o *Out, r *Rng, toolBin, toolDir string) {
 func init() {
 	props["C15"] = func(o *Out, rng *Rng, tier string) {
 		ggql.Sort = true
-		defer func() { ggql.Sort = false }()
+		tagUseNull = true
+		defer func() { ggql.Sort = false; tagUseNull = false }()
 		toolBin := ""
 		// build the real tool from the current tree
 		bin := filepath.Join(os.TempDir(), fmt.Sprintf("ggqlgen-%d", os.Getpid()))
@@ -316,4 +331,123 @@ func init() {
 			c15Case(o, rng.Fork(), toolBin, toolDir)
 		}
 	}
+}
+
+// ---- directive uses: part of the schema, invisible to introspection ---------------------------------
+
+const dirDefaultsQuery = `{ __schema { directives { name args { name defaultValue } } } }`
+
+// dirDefaults: directive name -> argument name -> printed default ("null" when there is none)
+func dirDefaults(root *ggql.Root) map[string]map[string]string {
+	out := map[string]map[string]string{}
+	res := safeResolve(root, dirDefaultsQuery, "", nil)
+	data, _ := res["data"].(map[string]interface{})
+	sch, _ := data["__schema"].(map[string]interface{})
+	ds, _ := sch["directives"].([]interface{})
+	for _, d := range ds {
+		dm, _ := d.(map[string]interface{})
+		name, _ := dm["name"].(string)
+		args := map[string]string{}
+		as, _ := dm["args"].([]interface{})
+		for _, a := range as {
+			am, _ := a.(map[string]interface{})
+			an, _ := am["name"].(string)
+			dv, ok := am["defaultValue"].(string)
+			if !ok {
+				dv = "null"
+			}
+			args[an] = dv
+		}
+		out[name] = args
+	}
+	return out
+}
+
+// useString renders a use by what it means: every argument of the directive with the value given for it,
+// or else its default (the parser fills the defaults in only when the directive is already known, so the
+// stored argument map alone is not the meaning), or else null.  `@d(n: null)` and `@d` differ exactly
+// when n has a non-null default.
+func useString(du *ggql.DirectiveUse, defs map[string]map[string]string) string {
+	name := "?"
+	if du.Directive != nil {
+		name = du.Directive.Name()
+	}
+	eff := map[string]string{}
+	for an, dv := range defs[name] {
+		eff[an] = dv
+	}
+	for an, av := range du.Args {
+		var b strings.Builder
+		if av != nil {
+			_ = av.Write(&b)
+		}
+		s := b.String()
+		if i := strings.Index(s, ": "); 0 <= i {
+			s = s[i+2:]
+		}
+		eff[an] = s
+	}
+	keys := make([]string, 0, len(eff))
+	for k := range eff {
+		keys = append(keys, k)
+	}
+	sort.Strings(keys)
+	var b strings.Builder
+	b.WriteString("@" + name + "(")
+	for _, k := range keys {
+		b.WriteString(k + "=" + eff[k] + ";")
+	}
+	b.WriteString(")")
+	return b.String()
+}
+
+// dirUseDump lists every directive use of every non-core type with where it sits.
+func dirUseDump(root *ggql.Root) (dump string, uses, nulls int) {
+	defs := dirDefaults(root)
+	var lines []string
+	add := func(where string, dus []*ggql.DirectiveUse) {
+		for i, du := range dus {
+			if du == nil {
+				continue
+			}
+			uses++
+			for _, av := range du.Args {
+				if av != nil && av.Value == nil {
+					nulls++
+				}
+			}
+			lines = append(lines, fmt.Sprintf("%s#%d %s", where, i, useString(du, defs)))
+		}
+	}
+	fields := func(tn string, fs []*ggql.FieldDef) {
+		for _, f := range fs {
+			add(tn+"."+f.N, f.Dirs)
+			for _, a := range f.Args() {
+				add(tn+"."+f.N+"("+a.N+")", a.Dirs)
+			}
+		}
+	}
+	for _, t := range root.Types() {
+		if t.Core() {
+			continue
+		}
+		tn := t.Name()
+		add(tn, t.Directives())
+		switch tt := t.(type) {
+		case *ggql.Object:
+			fields(tn, tt.Fields())
+		case *ggql.Interface:
+			fields(tn, tt.Fields())
+		case *ggql.Input:
+			for _, f := range tt.Fields() {
+				add(tn+"."+f.N, f.Dirs)
+			}
+		case *ggql.Enum:
+			for _, v := range tt.Values() {
+				add(tn+"."+string(v.Value), v.Directives)
+			}
+		}
+	}
+	sort.Strings(lines)
+	return strings.Join(lines, "\n"), uses, nulls
 }
